@@ -11,7 +11,7 @@ violation.
 from simkit import gen
 from simkit.chooser import Chooser, tape_copy
 from simkit.core import Failure, RunResult
-from simkit.mserver import ServerConfig
+from simkit.mserver import ServerConfig, F_TRUNC
 from simkit.world import World
 from simkit.tracefmt import render_events
 
@@ -19,7 +19,8 @@ PROP = "C05"
 LEVEL = "exploration"
 TITLE = "replies are read identically however the bytes are segmented"
 
-RULE = ("Sessions (connect, 1-6 drawn operations, 3 sentinel operations) against the reference RFC 5804 server with "
+RULE = ("Sessions (connect, 1-6 drawn operations - in a quarter of the sessions one reply ends early at a drawn byte and the "
+        "same object reconnects -, 3 sentinel operations) against the reference RFC 5804 server with "
         "randomised reply encodings and forced NO/BYE; each is executed twice from the same tape, once with the drawn "
         "recv segmentation and once with every recv satisfied in full. 'sweep' jobs enumerate, for one generated "
         "session, every single cut position of every reply up to 400 bytes, every pair of cut positions of every reply "
@@ -30,7 +31,8 @@ COMPONENTS = {"real": ["sievelib.managesieve.Client (all of it)", "sievelib.dige
               "stub": ["socket module (simkit.net)", "ssl module (simkit.net)", "ManageSieve server (simkit.mserver)",
                        "random module inside digest_md5"]}
 ASSUMPTIONS = ["the reference server's bytes are a function of the non-net part of the tape and of what the client wrote",
-               "TCP is reliable and ordered: only segmentation is varied here, no loss, EOF or timeout"]
+               "TCP is reliable and ordered: only segmentation is varied here; the one stream fault used (a reply that ends early, "
+               "followed by a reconnect of the same object) happens at the same byte in both executions"]
 BUDGET = {"quick": 150, "thorough": 900}
 
 OPS = ["skip", "capability", "listscripts", "getscript", "putscript", "checkscript",
@@ -83,6 +85,19 @@ def execute(ch, config):
         s.outcomes.append(("connect", (starttls,), o))
         alive = o.kind != "hang"
         srv.fault_weights = [24, 3, 1, 0, 0, 0, 0, 0]
+        # in a quarter of the sessions the byte stream of one operation simply ends early (the server's reply is cut at a
+        # drawn byte and the connection closed); the same object then connects again and carries on.  Where the stream
+        # ends is part of the stream (same in R0 and R1) - how the bytes before the end were chunked is not.
+        with ch.scope("run"):
+            cut_at = 1 + wl.int("cutoff_op", nops) if wl.flag("cutoff", 1, 4) else 0
+        cut_scope = [None]
+
+        def fault_hook(conn, dec, scope):
+            if cut_scope[0] is not None and scope.split(".")[0] == cut_scope[0] and not isinstance(dec, str):
+                cut_scope[0] = None
+                return F_TRUNC
+            return None
+        srv.fault_hook = fault_hook
         for i in range(1, nops + 1):
             if not alive:
                 break
@@ -90,6 +105,8 @@ def execute(ch, config):
                 op = OPS[wl.int("op", len(OPS))]
                 if op == "skip":
                     continue
+                if i == cut_at:
+                    cut_scope[0] = "op#%d" % i
                 if op in ("capability", "listscripts"):
                     args = ()
                 elif op in ("getscript", "deletescript", "setactive"):
@@ -106,6 +123,13 @@ def execute(ch, config):
             s.outcomes.append((op, args, o))
             if o.kind == "hang":
                 alive = False
+            if i == cut_at and alive:
+                cut_scope[0] = None
+                with ch.scope("recon#%d" % i):
+                    o = world.call(client, "connect", "user", "password", starttls=starttls)
+                s.outcomes.append(("connect", ("again",), o))
+                if o.kind == "hang":
+                    alive = False
         # sentinels: no forced verdicts, default shapes are still drawn
         srv.fault_weights = [1, 0, 0, 0, 0, 0, 0, 0]
         for j, (op, args) in enumerate([("havespace", ("sentinel", 5)),
